@@ -43,6 +43,9 @@ def agree_event(pp, tid, A, ion, zarg, iso, mono, adducts_arg, labelmods, via, k
     if adducts_arg:
         kw["charge_adducts"] = adducts_arg
 
+    if via == "str":
+        project.maybe_poison(pp, text, tid)
+    project.poison_values(pp, A, tid)
     if via == "ann":
         # one annotation object serves both calculators (the ordinary way to use a parsed annotation), in either order
         obj = anngen.build(pp, A)
@@ -130,7 +133,7 @@ def run(tier, seed, rep):
         iso = rnd.choice([0, 0, 1, 2, 3])
         labelmods = bool(A["isotope"]) and rnd.random() < 0.3
         via = "str" if i % 2 else "ann"
-        if i % 5 == 4 and not A["isotope"]:
+        if i % 5 == 4:
             evs.append(estimate_event(pp, f"e{i}", A, ion, zarg, via))
         else:
             evs.append(agree_event(pp, f"a{i}", A, ion, zarg, iso, mono, adducts_arg, labelmods, via))
